@@ -27,11 +27,18 @@ func init() {
 	checks["C01"] = func(r *Run) {
 		for _, store := range []string{"mem", "redis"} {
 			busySession(r, store, 300*time.Second, 100*time.Second, 90*time.Second)
+			busySessionR(r, store, 300*time.Second, 100*time.Second, 60*time.Second, true)
+			busySessionR(r, store, 300*time.Second, 0, 60*time.Second, true)
 			busySession(r, store, 300*time.Second, 0, 70*time.Second)
 			busySession(r, store, 0, 100*time.Second, 101*time.Second)
 		}
+		if r.unknownViolations() == 0 {
+			// fail closed at the level of Redis commands: a store method in which a command failed reports an error (and the
+			// handler then denies, fault_never_ok) - never data with a nil error
+			redisFaultSweep(r, "[C01]", map[string]bool{"gettok": true, "getauth": true, "settok": true})
+		}
 		if r.unknownViolations() > 0 {
-			r.Finish("busy sessions past the absolute session timeout")
+			r.Finish("busy sessions past the absolute session timeout; Redis command-level faults")
 			return
 		}
 		runHistories(r, profile{Hostile: 25, Faults: 30, Attack: 15, Logout: 6, Ticks: 18, OddRequest: true, Histories: scale(r, 60, 1500), Length: 45}, histRule)
@@ -61,6 +68,24 @@ func init() {
 		runHistories(r, profile{Hostile: 15, Faults: 8, Attack: 30, Logout: 12, Ticks: 10, OddRequest: true, OddConfig: true, Histories: scale(r, 60, 1500), Length: 45}, histRule)
 	}
 	checks["C11"] = func(r *Run) {
+		n := 0
+		for _, store := range []string{"mem", "redis"} {
+			for _, other := range []string{"app", "refresh"} {
+				c := genCfg(r, false, n)
+				c.Store, c.Access, c.RealKeys = store, true, ""
+				n += exploreSchedules(r, schedScenario{Name: store + "/forged+" + other, Cfg: c, Threads: []string{"forged", other}}, scale(r, 40, 400))
+			}
+		}
+		r.Extra["interleavings_executed"] = n
+		for _, store := range []string{"mem", "redis"} {
+			if r.unknownViolations() == 0 {
+				busySessionR(r, store, 600*time.Second, 0, 60*time.Second, true) // many refreshes in a row: each uses the latest refresh token
+			}
+		}
+		if r.unknownViolations() > 0 {
+			r.Finish("interleavings of a refresh answered with a forged ID token with a concurrent check; chains of refreshes")
+			return
+		}
 		runHistories(r, profile{Hostile: 30, Faults: 6, Attack: 3, Logout: 2, Ticks: 40, Histories: scale(r, 60, 1500), Length: 60}, histRule)
 	}
 	checks["C13"] = func(r *Run) {
@@ -99,6 +124,9 @@ func init() {
 			discSweep(r, "[C09]")
 		}
 		if r.unknownViolations() == 0 {
+			replicaLogout(r)
+		}
+		if r.unknownViolations() == 0 {
 			runHistories(r, profile{Hostile: 10, Faults: 12, Attack: 10, Logout: 30, Ticks: 15, Histories: scale(r, 40, 1000), Length: 45},
 				"(a0) RemoveSession / GetTokenResponse of the Redis store with every single (and random multiple) command-level fault, applied or not, from five prior states x four timeout pairs, command trace and raw server state compared with the command-level model; NewOIDCHandler with configuration_uri over logout section x key configuration x sequences of two discovery answers (documents, statuses, undecodable, transport error); (a) every interleaving, at store-call / token-endpoint-call / key-lookup granularity, of a logout with one (thorough: two) concurrent checks on the same session (fresh, expired-refreshable, application request), on real goroutines under the controlled scheduler, memory and Redis store, followed by a sequential probe with the old cookie; (b) "+histRule)
 			return
@@ -118,8 +146,11 @@ func init() {
 			}
 		}
 		r.Extra["interleavings_executed"] = n
+		if r.unknownViolations() == 0 {
+			replicaLogout(r) // redirect and callback served by different instances on one Redis, the callback replayed at the first
+		}
 		if r.unknownViolations() > 0 {
-			r.Finish("interleavings of login callbacks under the controlled scheduler")
+			r.Finish("interleavings of login callbacks under the controlled scheduler; logins spread over two instances")
 			return
 		}
 		runHistories(r, profile{Hostile: 10, Faults: 5, Attack: 45, Logout: 4, Ticks: 8, OddRequest: true, Histories: scale(r, 50, 1500), Length: 50},
@@ -132,6 +163,12 @@ func init() {
 // absolute limit is over the cookie is worth nothing (judged by the session-lifetime ghost of the monitors; every
 // line is also executed on the model).
 func busySession(r *Run, store string, abs, idle, step time.Duration) {
+	busySessionR(r, store, abs, idle, step, false)
+}
+
+// busySessionR: with refreshing=true the tokens live shorter than a step and carry a refresh token, so every request
+// refreshes them (successfully): renewing TOKENS never renews the SESSION's absolute lifetime
+func busySessionR(r *Run, store string, abs, idle, step time.Duration, refreshing bool) {
 	c := genCfg(r, false, 0)
 	c.Store, c.Abs, c.Idle, c.Access, c.Logout = store, abs, idle, false, false
 	s := newHSim(r, c)
@@ -146,13 +183,79 @@ func busySession(r *Run, store string, abs, idle, step time.Duration) {
 		return
 	}
 	cb := mustURL(c.CallbackURI)
-	a := idpAnswer{Kind: "body", TokenType: "Bearer", ExpiresIn: i64(7200),
-		ID: mintToken(tokSpec{Mode: "good", Exp: s.w.rig.clock.Now().Unix() + 7200, Aud: c.ClientID, Nonce: iss.Nonce, Sub: "user", Extra: s.uniq("j")})}
+	life := int64(7200)
+	if refreshing {
+		life = int64(step/time.Second) - 5
+	}
+	a := idpAnswer{Kind: "body", TokenType: "Bearer", ExpiresIn: i64(life),
+		ID: mintToken(tokSpec{Mode: "good", Exp: s.w.rig.clock.Now().Unix() + life, Aud: c.ClientID, Nonce: iss.Nonce, Sub: "user", Extra: s.uniq("j")})}
+	if refreshing {
+		a.Refresh = s.uniq("REFRESH-marker")
+	}
 	s.do(hReq{Scheme: cb.Scheme, Host: cb.Host, Path: cb.EscapedPath() + "?code=" + s.uniq("code") + "&state=" + iss.State, Cookie: c.cookieName() + "=" + iss.Sid,
 		Gen: gen(), KeysOK: true, IDP: a})
 	for t := time.Duration(0); t < abs+3*step && !s.stop; t += step {
 		s.tick(step)
-		s.do(hReq{Scheme: "https", Host: "app.example.com", Path: "/app/page", Cookie: c.cookieName() + "=" + iss.Sid, Gen: gen(), KeysOK: true, IDP: idpAnswer{Kind: "transport"}})
+		ans := idpAnswer{Kind: "transport"}
+		if refreshing {
+			ans = idpAnswer{Kind: "body", TokenType: "Bearer", ExpiresIn: i64(life), Refresh: s.uniq("REFRESH-marker"),
+				ID: mintToken(tokSpec{Mode: "good", Exp: s.w.rig.clock.Now().Unix() + life, Aud: c.ClientID, Sub: "user", Extra: s.uniq("j")})}
+		}
+		s.do(hReq{Scheme: "https", Host: "app.example.com", Path: "/app/page", Cookie: c.cookieName() + "=" + iss.Sid, Gen: gen(), KeysOK: true, IDP: ans})
 	}
-	r.Case(fmt.Sprintf("busy|%s|%v|%v|%v", store, abs, idle, step))
+	r.Case(fmt.Sprintf("busy|%s|%v|%v|%v|%v", store, abs, idle, step, refreshing))
+}
+
+// replicaLogout: several instances of the service on one Redis (each with its own store object). A session is used at one
+// instance, logged out at another, and then presented again at the first: whatever an instance remembers locally, the
+// logout is final everywhere. Also: a login whose redirect and callback are served by different instances, replayed at the
+// first. Every line is also executed on the (replica-agnostic) model.
+func replicaLogout(r *Run) {
+	for variant := 0; variant < 4 && r.unknownViolations() == 0; variant++ {
+		c := genCfg(r, false, variant)
+		c.Store, c.Logout, c.LogoutPath, c.LogoutURI, c.Abs, c.Idle, c.Disc = "redis", true, "/logout", "https://idp.example.com/logout", 0, 0, nil
+		s := newHSim(r, c)
+		c = s.w.cfg
+		gen := func() [4]string {
+			return [4]string{s.uniq("sid"), s.uniq("nonce"), s.uniq("state"), s.uniq("VERIFIER-marker")}
+		}
+		app := func(sid string, replica int) hObs {
+			return s.do(hReq{Scheme: "https", Host: "app.example.com", Path: "/app/page", Cookie: c.cookieName() + "=" + sid, Gen: gen(), KeysOK: true,
+				IDP: idpAnswer{Kind: "transport"}, Replica: replica})
+		}
+		// login: redirect at replica A, callback at replica B
+		a, b := variant%2, 1-variant%2
+		q1 := hReq{Scheme: "https", Host: "app.example.com", Path: "/app", Gen: gen(), KeysOK: true, IDP: idpAnswer{Kind: "transport"}, Replica: a}
+		s.do(q1)
+		iss := s.issued[q1.Gen[0]]
+		if iss == nil {
+			s.close()
+			continue
+		}
+		cb := mustURL(c.CallbackURI)
+		mk := func() idpAnswer {
+			return idpAnswer{Kind: "body", TokenType: "Bearer", ExpiresIn: i64(3600),
+				ID: mintToken(tokSpec{Mode: "good", Exp: s.w.rig.clock.Now().Unix() + 3600, Aud: c.ClientID, Nonce: iss.Nonce, Sub: "user", Extra: s.uniq("j")})}
+		}
+		cbReq := hReq{Scheme: cb.Scheme, Host: cb.Host, Path: cb.EscapedPath() + "?code=" + s.uniq("code") + "&state=" + iss.State, Cookie: c.cookieName() + "=" + iss.Sid,
+			Gen: gen(), KeysOK: true, IDP: mk(), Replica: b}
+		s.do(cbReq)
+		// the callback replayed at the replica that issued the redirect (it must not exchange again)
+		rp := cbReq
+		rp.Replica, rp.Gen, rp.IDP = a, gen(), mk()
+		s.do(rp)
+		// the session in use at both replicas, then logged out at one and presented at the other
+		app(iss.Sid, a)
+		app(iss.Sid, b)
+		if variant >= 2 {
+			s.tick(time.Second)
+		}
+		s.do(hReq{Scheme: "https", Host: "app.example.com", Path: "/logout", Cookie: c.cookieName() + "=" + iss.Sid, Gen: gen(), KeysOK: true, IDP: idpAnswer{Kind: "transport"}, Replica: b})
+		app(iss.Sid, a)
+		app(iss.Sid, b)
+		s.tick(3 * time.Second)
+		app(iss.Sid, a)
+		r.Case(fmt.Sprintf("replicas|%d", variant))
+		s.close()
+	}
 }
